@@ -30,9 +30,11 @@ StoredOK(o) == /\ Shape(o) /\ AllHere(o) /\ \A i \in 1..Len(o.objs) : o.objs[i][
 \* a caller's copy handed to hwloc_distances_transform (NULL objects possible)
 C(o) == [kind |-> o.kind, objs |-> ObjId(o), types |-> ObjType(o), sw |-> ObjSw(o), vals |-> o.vals]
 
-Obs(e) == [i \in 1..Len(e.obs.l) |-> D(e.obs.l[i])]
-ObsOK(e) == /\ e.obs.ret = 0 /\ e.obs.nr = Len(e.obs.l)
-            /\ \A i \in 1..Len(e.obs.l) : StoredOK(e.obs.l[i])
+ObsR(o) == [i \in 1..Len(o.l) |-> D(o.l[i])]
+ObsROK(o) == /\ o.ret = 0 /\ o.nr = Len(o.l)
+             /\ \A i \in 1..Len(o.l) : StoredOK(o.l[i])
+Obs(e) == ObsR(e.obs)
+ObsOK(e) == ObsROK(e.obs)
 \* the call left the committed structures alone
 Untouched(e) == ObsOK(e) /\ BagEq(ds, Obs(e)) /\ ds' = Obs(e)
 Alive(e) == {e.surv[i][1] : i \in {j \in 1..Len(e.surv) : e.surv[j][2] = 1}}
@@ -48,6 +50,11 @@ TReset == /\ IsEvent("Reset")
           /\ \A i \in 1..Len(e.cands) : e.cands[i][1] > 0 /\ e.cands[i][2] # "" /\ e.cands[i][3] \in {0, 1}
           /\ ObsOK(e)
           /\ (e.mode = "synth" => e.obs.nr = 0)
+          \* root sets and per-object sets only help the orchestration to choose restrict sets; they must describe
+          \* exactly the objects the stored structures mention
+          /\ Len(e.root) = 2 /\ e.root[1] # ""
+          /\ {e.objsets[i][1] : i \in 1..Len(e.objsets)} = UNION {Range(ObjId(e.obs.l[i])) : i \in 1..Len(e.obs.l)}
+          /\ \A i \in 1..Len(e.objsets) : Len(e.objsets[i]) = 4 /\ e.objsets[i][2] # ""
           /\ ds' = Obs(e) /\ h' = NoHandle
 
 TCreate == /\ IsEvent("create")
@@ -149,6 +156,20 @@ TXml == /\ IsEvent("xml")
         /\ e.ret = 0 /\ e.errno = "0" /\ e.lret = 0 /\ e.lerrno = "0"
         /\ Follows /\ UNCHANGED h
 
+\* shared-memory adoption: the adopted topology shows the same structures, on its own objects, and is read-only
+TShm == /\ IsEvent("shm")
+        /\ e.lret = 0
+        /\ IF e.wret = 0 /\ e.aret = 0
+           THEN /\ e.werrno = "0" /\ e.aerrno = "0"
+                /\ ObsROK(e.adopted.obs)
+                /\ \A i \in DOMAIN ds : Range(ds[i].objs) \subseteq Mentioned(e)
+                /\ SameUpToHet(RestrictAll(ds, Alive(e)), ObsR(e.adopted.obs))
+                /\ e.rmret = -1 /\ e.rmerrno # "0" /\ e.crok = 0 /\ e.crerrno # "0"       \* "the topology is read-only"
+                /\ e.adopted2 = e.adopted
+           ELSE /\ "EBUSY" \in {e.werrno, e.aerrno}                 \* the mapping address was not available: nothing to see
+                /\ e.surv = <<>> /\ e.rmret = 0 /\ e.crok = 0
+        /\ Untouched(e) /\ UNCHANGED h
+
 \* a call the recorder could not make
 TSkip == /\ IsEvent("skip")
          /\ CASE e.op \in {"values", "commit"} -> h.st = "none" /\ e.handle = 0
@@ -159,7 +180,7 @@ TSkip == /\ IsEvent("skip")
          /\ UNCHANGED <<ds, h>>
 
 Next == TReset \/ TCreate \/ TValues \/ TCommit \/ TQuery \/ TXf \/ TRr \/ TRr2 \/ TRemove \/ TRmDepth \/ TRmType
-        \/ TRestrict \/ TDup \/ TXml \/ TSkip
+        \/ TRestrict \/ TDup \/ TXml \/ TShm \/ TSkip
 Spec == Init /\ [][Next]_vars
 
 Accepted == TLCGet("stats").diameter - 1 = Len(T)
